@@ -134,6 +134,7 @@ AXES = [
             ("three", ax_tempo([(0, F(1, 4), 65.5), (1, F(3, 4), 111.0), (2, F(1, 3), 333.25)])),
             ("after_last", ax_tempo([(5, F(0), 99.0)])),
             ("m1+after", ax_tempo([(1, F(0), 75.0), (6, F(1, 2), 50.0)])),
+            ("three-after-last", ax_tempo([(5, F(0), 99.0), (6, F(1, 2), 50.0), (7, F(1, 4), 120.0)])),
             ("all_diffs", ax_tempo([(1, F(0), 60.0)], True)),
             ("interleaved-packages", ax_tempo([(0, F(1, 2), 240.0), (0, F(1, 4), 60.0), (1, F(3, 4), 90.0), (1, F(1, 3), 150.0)], False, True)),
         ],
